@@ -70,7 +70,7 @@ func (c tcpCase) spec() tcpx.Spec {
 	return tcpx.Spec{Conns: []tcpx.ConnSpec{first, follow}, AcceptErr: c.Kind == "class" && c.B%2 == 1, Shared: c.Kind == "class" && c.B%4 >= 2}
 }
 
-var classNames = []string{"ok", "cipher", "bad-addr", "private", "refused", "relay-client", "relay-target"}
+var classNames = []string{"ok", "cipher", "bad-addr", "private", "refused", "relay-client", "relay-target", "client-rst", "client-rst-late", "client-abort", "target-abort", "cipher-rst"}
 
 func oracle(s tcpx.Spec, o *tcpx.Obs, x *vrt.Exec, needFollower int) (string, []*engine.Finding) {
 	fs := hk.Generic(x, hk.Opts{Leaks: true})
